@@ -230,15 +230,15 @@ type Axiom struct {
 // Lemma is a formula to be proved from axioms/spec definitions and the
 // contracts (ensures) of the functions it mentions.
 type Lemma struct {
-	Uses  []string // names of lemmas whose statements are assumed here (each is proved on its own)
-	Induction string // name of an int variable: the lemma is proved by natural induction on it (for values >= 0)
-	Name  string
-	Pkg   string
-	Props []string
-	Vars  []Var
-	Hyps  []*Clause
-	Concl []*Clause
-	Pos   Position
+	Uses      []string // names of lemmas whose statements are assumed here (each is proved on its own)
+	Induction string   // name of an int variable: the lemma is proved by natural induction on it (for values >= 0)
+	Name      string
+	Pkg       string
+	Props     []string
+	Vars      []Var
+	Hyps      []*Clause
+	Concl     []*Clause
+	Pos       Position
 }
 
 // SortDecl declares a spec-level datatype: `sort Node = svc(n string) | par(n string)`.
